@@ -30,3 +30,45 @@ unsafe extern "Rust" fn __getrandom_v03_custom(dest: *mut u8, len: usize) -> Res
     });
     Ok(())
 }
+
+/// `ring` (TLS randoms, X25519 shares) draws through getrandom 0.2, which calls `libc::syscall(SYS_getrandom, ..)`
+/// and cannot be given a custom backend on Linux. The harness therefore defines `syscall` itself: the
+/// static link resolves every reference from the Rust crates in this binary to this definition; all
+/// numbers except SYS_getrandom are forwarded unchanged to the kernel.
+#[cfg(all(target_os = "linux", target_arch = "x86_64"))]
+#[unsafe(no_mangle)]
+pub unsafe extern "C" fn syscall(num: libc::c_long, a1: usize, a2: usize, a3: usize, a4: usize, a5: usize, a6: usize) -> libc::c_long {
+    if num == libc::SYS_getrandom {
+        let seeded = ENTROPY.try_with(|e| {
+            let mut s = e.get();
+            let (dest, len) = (a1 as *mut u8, a2);
+            let mut i = 0;
+            while i < len {
+                let v = splitmix(&mut s).to_le_bytes();
+                let n = (len - i).min(8);
+                unsafe { core::ptr::copy_nonoverlapping(v.as_ptr(), dest.add(i), n) };
+                i += n;
+            }
+            e.set(s);
+        });
+        if seeded.is_ok() {
+            return a2 as libc::c_long;
+        }
+    }
+    let ret: isize;
+    unsafe {
+        core::arch::asm!(
+            "syscall",
+            inlateout("rax") num as isize => ret,
+            in("rdi") a1, in("rsi") a2, in("rdx") a3, in("r10") a4, in("r8") a5, in("r9") a6,
+            lateout("rcx") _, lateout("r11") _,
+            options(nostack)
+        );
+    }
+    if (-4095..0).contains(&ret) {
+        unsafe { *libc::__errno_location() = (-ret) as i32 };
+        -1
+    } else {
+        ret as libc::c_long
+    }
+}
